@@ -9,3 +9,13 @@ import (
 func TestC25(t *testing.T) {
 	sim.Main(t, sim.Spec{Property: "C25", Engine: "E2-storage", Run: RunCrash})
 }
+
+func TestC22(t *testing.T) {
+	sim.Main(t, sim.Spec{Property: "C22", Engine: "E2-storage", Run: RunFlushable})
+}
+func TestC23(t *testing.T) {
+	sim.Main(t, sim.Spec{Property: "C23", Engine: "E2-storage", Run: RunBackends})
+}
+func TestC24(t *testing.T) {
+	sim.Main(t, sim.Spec{Property: "C24", Engine: "E2-storage", Run: RunTables})
+}
